@@ -8,6 +8,7 @@ From Coq Require Import List String NArith ZArith Bool.
 Import ListNotations.
 From GMQ Require Import Broker.Model Proofs.BrokerFrames Proofs.BrokerStream.
 Open Scope N_scope.
+From GMQ Require Import Broker.gen.BrokerGen.
 
 Theorem C13_delivery_is_one_block :
   forall cfg fx s c h tag,
@@ -59,3 +60,9 @@ Example C13_example :
   = [(1, 1, SChannelOpenOk); (1, 1, SQDeclareOk "q" 0 0);
      (1, 1, SGetOk 1 false "" "q" 0); (1, 1, SHeader 5 7 true); (1, 1, SBody 5 4); (1, 1, SBody 5 3)].
 Proof. vm_compute. reflexivity. Qed.
+
+(* the discipline of the source that the model's "one sender at a time per channel" stands on, read off /repo on every
+   run by translator/cmd/broker: every method / content frame of a channel is written while its send lock is held *)
+Theorem C13_generated_send_discipline : send_under_channel_lock = true /\ send_method_and_content_locked = true.
+Proof. split; reflexivity. Qed.
+Print Assumptions C13_generated_send_discipline.
